@@ -5,7 +5,9 @@
     fixed numbers, independent of the input, but larger than the input can be.  (Since the fix
     "check the hvcC nal unit count against the box before allocating" the count of an hvcC array
     is compared with the bytes left in the box, one more [stream_position] call per array; a bound
-    that does not look at the position cannot see that.) *)
+    that does not look at the position cannot see that: the position-aware contracts
+    [hvcc_spec]/[hev1_spec] of CostHvcc.v, linear in the box size, are the ones the composition
+    uses.) *)
 From MP4 Require Import Cost CostLeaf.
 From MP4 Require Import BoxAvc1 BoxHev1.
 From Coq Require Import ZArith ZifyN ZifyNat ZifyBool Lia.
